@@ -5,23 +5,26 @@ B3: TLC checks ByteChannel.tla (mechanism, incl. the coop budget) against the P 
 B1: the complete state graph is dumped; a transition cover (every edge of the graph, each
     reached by a shortest path, then extended by random further steps) is replayed on the real
     swimos_byte_channel by hand-polling with counting wakers - one call = one atomic step.
-B2: executions that differ from the mechanism model, a sample of conforming ones, and (thorough)
-    free-running multi-threaded producer/consumer runs are validated against
-    Trace_ByteChannel.tla (P).
+B2: executions that differ from the mechanism model and a sample of conforming ones are validated
+    against Trace_ByteChannel.tla (P).  Each half may be polled with several different wakers (NW):
+    the waker of a side's latest pending poll is the one that must be woken.
 """
 import json, os, random
 from vlib import core
 from vlib import replay as rp
 
-INPUT_KEYS = {"k", "n"}
+INPUT_KEYS = {"k", "n", "w"}
 INVS = ["TypeOK", "Bounded", "NoLostWakeupR", "NoLostWakeupW", "SlotHoldsWaiter", "ResultSound", "InitDump"]
 
 
 def configs(tier):
     if tier == "quick":
-        return [dict(Cap=1, MaxReq=2, Budget=0), dict(Cap=2, MaxReq=3, Budget=0), dict(Cap=3, MaxReq=3, Budget=0),
-                dict(Cap=5, MaxReq=5, Budget=0), dict(Cap=2, MaxReq=2, Budget=3)]
-    return [dict(Cap=c, MaxReq=m, Budget=b) for c in (1, 2, 3, 4) for m in (2, 4) for b in (0, 2, 5)]
+        return [dict(Cap=1, MaxReq=2, Budget=0, NW=1), dict(Cap=2, MaxReq=3, Budget=0, NW=1), dict(Cap=3, MaxReq=3, Budget=0, NW=1),
+                dict(Cap=5, MaxReq=5, Budget=0, NW=1), dict(Cap=2, MaxReq=2, Budget=3, NW=1),
+                # a half polled with different wakers (another task, a timeout): the waker of the latest poll must be woken
+                dict(Cap=1, MaxReq=1, Budget=0, NW=2), dict(Cap=2, MaxReq=2, Budget=0, NW=2), dict(Cap=2, MaxReq=2, Budget=3, NW=2)]
+    return ([dict(Cap=c, MaxReq=m, Budget=b, NW=1) for c in (1, 2, 3, 4) for m in (2, 4) for b in (0, 2, 5)]
+            + [dict(Cap=c, MaxReq=2, Budget=b, NW=nw) for c in (1, 2, 3) for b in (0, 3) for nw in (2, 3)])
 
 
 def to_trace(case, result):
@@ -33,6 +36,8 @@ def to_trace(case, result):
         e = {"k": a["k"]}
         if "n" in a:
             e["n"] = a["n"]
+        if "w" in a:
+            e["w"] = a["w"]
         e.update(obs[i])
         ev.append(e)
     return ev
@@ -78,17 +83,17 @@ def run(tier, out):
         tot["transitions"] += g.n_edges
         paths = g.covering_paths(extend=4 if tier == "quick" else 8, rng=rng)
         paths += g.random_walks(200 if tier == "quick" else 3000, 12 if tier == "quick" else 24, rng)
-        if k["Budget"] == 0:
+        if k["Budget"] == 0 and k["NW"] == 1:
             # the channel's behaviour may depend on history the model abstracts from (the allocation state of the
             # internal buffer): every sequence of reads / writes of 1 byte or of the whole capacity, to a fixed depth
             cap = k["Cap"]
             deep = g.all_paths(8 if tier == "quick" else 10,
                                keep=lambda a: a["k"] in ("read", "write") and a.get("n") in (1, cap))
             paths += deep
-        cases = [{"id": "%d.%d" % (ci, i), "cfg": {"cap": k["Cap"], "budget": k["Budget"]}, "acts": p}
+        cases = [{"id": "%d.%d" % (ci, i), "cfg": {"cap": k["Cap"], "budget": k["Budget"], "nw": k["NW"]}, "acts": p}
                  for i, p in enumerate(paths)]
         results = rp.run_cases("h_core", "bytechan", cases, wd, tag="bc%d" % ci, input_keys=INPUT_KEYS)
-        st = rp.conformance(out, cases, results, INPUT_KEYS, pv, "ByteChannel%s" % json.dumps(k))
+        st = rp.conformance(out, cases, results, INPUT_KEYS, pv, "ByteChannel%s" % json.dumps(k), ignore_obs_keys=("wokeR", "wokeW"))
         drift += st["drift"]
         steps += st["steps"]
         tot["traces_validated_against_impl"] += st["conform"] + st["drift"]
@@ -117,21 +122,9 @@ def run(tier, out):
             checker_cmd="tlc MC_ByteChannel (INVARIANTS %s) + h_core bytechan + tlc Trace_ByteChannel" % " ".join(INVS))
     out.assumptions += ["calls on one channel are serialised by its mutex, so a call is an atomic step",
                         "memory-ordering effects below the mutex are not modelled"]
-    if tier == "thorough":
-        stress(out, wd, rng)
-
-
-def stress(out, wd, rng):
-    """Free-running producer / consumer on OS threads; per-side logs are merged by the global
-    sequence number taken while the call holds the channel's lock (see harness)."""
-    res = core.run_harness("h_core", ["bytechan", "stress", str(rng.randrange(1 << 30)), "40"])
-    n = 0
-    for line in res.splitlines():
-        o = json.loads(line)
-        n += 1
-        if not o["ok"]:
-            out.violation("byte channel stress: %s" % o["what"], {"component": "bytechan-stress", "run": o})
-    out.add(stress_runs=n)
+    # (a free-running multi-threaded stress run was planned for the thorough tier; without a sequence number taken
+    # under the channel's mutex its per-side logs cannot be merged into a history P could judge without guessing, so
+    # it is not done: the thorough tier is the larger set of configurations above)
 
 
 def replay(path, out):
@@ -142,7 +135,7 @@ def replay(path, out):
         return 0
     case = obj["case"]
     res = replay_mod_run(case, wd)
-    d = rp.first_diff(case["acts"], res.get("obs", []), INPUT_KEYS)
+    d = rp.first_diff(case["acts"], res.get("obs", []), INPUT_KEYS, ("wokeR", "wokeW"))
     print("first divergence from M at step:", d)
     v = p_validate_factory(wd)(case, res)
     print("P verdict:", json.dumps(v))
